@@ -13,7 +13,7 @@ import (
 // by nondeterministic values and builds the query with the real builder:
 // everything except the lexing of that one literal is the real pipeline.
 //
-//	number 9001..9009  -> hole h1..h9   (parameter hole.hK = any | finite | int:lo:hi)
+//	number 9001..9009  -> hole h1..h9   (parameter hole.hK = any | finite | int:lo:hi | q:lo:hi)
 //	string '#S1'..'#S9' -> hole S1..S9  (parameter hole.SK = maxlen:class)
 
 func vHoleValue(name string) interface{} {
@@ -24,6 +24,20 @@ func vHoleValue(name string) interface{} {
 			lo, _ := strconv.Atoi(f[1])
 			hi, _ := strconv.Atoi(f[2])
 			return float64(vInt(name, lo, hi))
+		}
+		if strings.HasPrefix(spec, "qc:") {
+			// quarter steps, one execution path per value (case split)
+			f := strings.Split(spec, ":")
+			lo, _ := strconv.Atoi(f[1])
+			hi, _ := strconv.Atoi(f[2])
+			return float64(vConc(vInt(name, lo, hi))) / 4
+		}
+		if strings.HasPrefix(spec, "q:") {
+			// quarter steps: k/4 for an integer k in [lo,hi]
+			f := strings.Split(spec, ":")
+			lo, _ := strconv.Atoi(f[1])
+			hi, _ := strconv.Atoi(f[2])
+			return float64(vInt(name, lo, hi)) / 4
 		}
 		return vFloat(name, spec)
 	}
